@@ -15,6 +15,7 @@ Renderings of one tree share site ids (allocated in the same traversal order):
 import builtins
 import collections
 import functools
+import sys
 
 from . import e1
 
@@ -446,7 +447,9 @@ def execute(code, ch, modules=None):
             raise E_()
 
     def _u(r, val, site):
-        obs.append((r, site))
+        # a finally block that runs because a NameError is propagating is outside the structured
+        # fragment ("exceptions ... always caught"): the read is recorded as reached, its site is not
+        obs.append((r, site, isinstance(sys.exc_info()[1], NameError)))
         return val
 
     def _null(*a, **k):
@@ -468,7 +471,7 @@ def execute(code, ch, modules=None):
     except (NameError, E_):
         pass
     except RecursionError:
-        obs.append(('recursion', 0))
+        obs.append(('recursion', 0, False))
     return obs
 
 
@@ -492,10 +495,13 @@ def ground_truth(text, mode, modules=None, max_exec=20000):
 
     def on_exec(x):
         t.nodes += len(x.trace)
-        for r, site in x.obs:
-            if r == 'recursion':
+        for o in x.obs:
+            if o[0] == 'recursion':
                 continue
+            r, site, unwinding = o
             t.reached[r] = True
+            if unwinding:
+                continue
             if site == 0:
                 t.unbound[r] = True
             else:
